@@ -75,8 +75,10 @@ Inductive err :=
 
 Inductive out := RNone | RCls (c : N * N) | RAll (d : list (str * (N * N))) | RErr (e : err).
 
+(* OProtect ps = library.mark_protected_tags(the registry's Library, ps): the protected list is STATE of the Library and
+   may be replaced at any point of a history (`tags=None` is the list PROTECTED_TAGS, written out by the caller) *)
 Inductive op :=
-  ORegister (n : str) (c : N * N) | OUnregister (n : str) | OClear | OGet (n : str) | OAll.
+  ORegister (n : str) (c : N * N) | OUnregister (n : str) | OClear | OGet (n : str) | OAll | OProtect (ps : list str).
 
 (* the two components of a class: what `register` compares, and which object `get` hands back *)
 Definition cls_hash (c : N * N) : N := fst c.
@@ -162,6 +164,7 @@ Section Registry.
     | OClear => clear r l
     | OGet n => (r, l, get n r)
     | OAll => (r, l, RAll (contents r))
+    | OProtect ps => (r, {| ltags := ltags l; prot := ps |}, RNone)       (* lib._protected_tags = [*tags] *)
     end.
 
   Fixpoint run (r : rstate) (l : lib) (ops : list op) : rstate * lib * list out :=
@@ -173,34 +176,52 @@ Section Registry.
         (r2, l2, x :: xs)
     end.
 
-  (* ---------- specification: a plain dictionary driven by the same calls ---------- *)
-  (* `ps` = the protected tag names of the library (constant during a history) *)
-  Definition dict_step (ps : list str) (d : list (str * (N * N))) (o : op) : list (str * (N * N)) * out :=
+  (* some registered component uses tag t *)
+  Definition tag_used (r : rstate) (t : str) : bool :=
+    existsb (fun n => match slookup n (reg r) with Some (_, t') => str_eqb t t' | None => false end) (skeys (reg r)).
+
+  (* A history is DISCIPLINED when it never marks a tag as protected while a registered component uses that tag
+     (protecting the tag of a live component is the one way to leave its tag function behind: unregister then
+     refuses to delete it). *)
+  Definition protect_ok (r : rstate) (o : op) : bool :=
+    match o with OProtect ps => negb (existsb (tag_used r) ps) | _ => true end.
+
+  Fixpoint disciplined (r : rstate) (l : lib) (ops : list op) : bool :=
+    match ops with
+    | [] => true
+    | o :: rest => protect_ok r o && (let '(r1, l1, _) := step r l o in disciplined r1 l1 rest)
+    end.
+
+  (* ---------- specification: a plain dictionary (and the current protected list) driven by the same calls ---------- *)
+  Notation dstate := (list str * list (str * (N * N)))%type (only parsing).
+
+  Definition dict_step (s : dstate) (o : op) : dstate * out :=
+    let '(ps, d) := s in
     match o with
     | ORegister n c =>
         let go := match fmt n with
-                  | None => (d, RErr EValueError)
-                  | Some t => if nmem t ps then (d, RErr ETagProtected) else (sset n c d, RNone)
+                  | None => (s, RErr EValueError)
+                  | Some t => if nmem t ps then (s, RErr ETagProtected) else ((ps, sset n c d), RNone)
                   end in
         match slookup n d with
-        | Some c' => if same_class c' c then go else (d, RErr EAlreadyRegistered)
+        | Some c' => if same_class c' c then go else (s, RErr EAlreadyRegistered)
         | None => go
         end
     | OUnregister n =>
-        match slookup n d with None => (d, RErr ENotRegistered) | Some _ => (sdel n d, RNone) end
-    | OClear => ([], RNone)
-    | OGet n => (d, match slookup n d with None => RErr ENotRegistered | Some c => RCls c end)
-    | OAll => (d, RAll d)
+        match slookup n d with None => (s, RErr ENotRegistered) | Some _ => ((ps, sdel n d), RNone) end
+    | OClear => ((ps, []), RNone)
+    | OGet n => (s, match slookup n d with None => RErr ENotRegistered | Some c => RCls c end)
+    | OAll => (s, RAll d)
+    | OProtect ps' => ((ps', d), RNone)
     end.
 
-  Fixpoint dict_run (ps : list str) (d : list (str * (N * N))) (ops : list op)
-    : list (str * (N * N)) * list out :=
+  Fixpoint dict_run (s : dstate) (ops : list op) : dstate * list out :=
     match ops with
-    | [] => (d, [])
+    | [] => (s, [])
     | o :: rest =>
-        let '(d1, x) := dict_step ps d o in
-        let '(d2, xs) := dict_run ps d1 rest in
-        (d2, x :: xs)
+        let '(s1, x) := dict_step s o in
+        let '(s2, xs) := dict_run s1 rest in
+        (s2, x :: xs)
     end.
 End Registry.
 
